@@ -97,6 +97,9 @@ type MeteredReader struct {
 	Calls    int
 	Budget   int // 0 = unlimited; exceeding it panics with BudgetExceeded
 	AfterEOF int
+	// Chunk > 0: a Read delivers at most Chunk bytes (io.Reader allows short reads: a
+	// network stream or a bufio buffer boundary does exactly that)
+	Chunk int
 }
 
 func NewReader(b []byte) *MeteredReader { return &MeteredReader{B: b} }
@@ -116,6 +119,9 @@ func (r *MeteredReader) Read(p []byte) (int, error) {
 	if r.Off >= len(r.B) {
 		r.AfterEOF++
 		return 0, io.EOF
+	}
+	if r.Chunk > 0 && len(p) > r.Chunk {
+		p = p[:r.Chunk]
 	}
 	n := copy(p, r.B[r.Off:])
 	r.Off += n
